@@ -356,6 +356,33 @@ fn kernel_case(src: &mut Src, ctx: &mut RunCtx) -> RunResult {
             format!("Fir::filter_float with {nt} taps gives {k}, f64 dot product {y}, generic kernel {g} (bound {b:e}; avx build: {})", cfg!(target_feature = "avx")),
         ));
     }
+    // `filter_n` / `filter_n_inplace` ("call filter() multiple times, across an
+    // input range"): one output for every offset i*deci at which all taps still
+    // fit, each exactly what `filter` gives there.
+    {
+        let deci = src.range(1, 8);
+        let want_n = (input.len() - nt) / deci + 1;
+        let m = src.below(want_n + 1);
+        let r = crate::engine::catch(|| {
+            let fir = Fir::new(&taps);
+            let all = fir.filter_n(&input, deci);
+            let mut part = vec![0f32; m];
+            fir.filter_n_inplace(&input, deci, &mut part);
+            let each: Vec<f32> = (0..want_n).map(|i| fir.filter(&input[i * deci..])).collect();
+            (all, part, each)
+        });
+        let (all, part, each) = match r {
+            Ok(x) => x,
+            Err(p) => return ctx.tolerate(Violation::new(format!("C11:kernel-panic:{}", p.site()), format!("Fir::filter_n with {nt} taps, {} samples, deci {deci} panicked: {} at {}", input.len(), p.msg, p.loc))),
+        };
+        ctx.count("filter_n_cases");
+        if all.len() != want_n || all.iter().zip(&each).any(|(a, b)| a.to_bits() != b.to_bits()) {
+            return ctx.tolerate(Violation::new("C11:filter-n", format!("Fir::filter_n with {nt} taps on {} samples, deci {deci}: {} outputs, {want_n} offsets fit; first difference at {:?}", input.len(), all.len(), all.iter().zip(&each).position(|(a, b)| a.to_bits() != b.to_bits()))));
+        }
+        if part.iter().zip(&each).any(|(a, b)| a.to_bits() != b.to_bits()) {
+            return ctx.tolerate(Violation::new("C11:filter-n-inplace", format!("Fir::filter_n_inplace with {nt} taps on {} samples, deci {deci}, {m} outputs asked: differs from filter() at the same offsets", input.len())));
+        }
+    }
     // General IIR kernel (no block wraps it; SymbolSync uses the clamped form):
     // y[n] = t0*x[n] + sum_i t[i]*y[n-i], and the clamped variant feeds the
     // *clamped* value back.
